@@ -1,4 +1,4 @@
-\* quick tier: slices KubeSingles, OtherSingles, Pairs, Triples, V0, Unnamed of MC_quick.tla; 2+1 objects, <= 3 queued contexts; ~6 k states, ~4.3 k cases, ~10 s
+\* quick tier: slices KubeSingles, OtherSingles, Pairs, Triples, V0, Unnamed of MC_quick.tla; 2+1 objects, <= 3 queued contexts; ~5.8 k states, ~4.3 k cases (incl. schedule / admission / conversion contexts rendered before the kubernetes bindings are enabled), ~10 s
 SPECIFICATION Spec
 CONSTANTS
   Slices <- QuickSlices
@@ -8,5 +8,5 @@ CONSTANTS
   FixF13 = TRUE
   FixF12 = TRUE
   FixV0 = TRUE
-INVARIANTS TypeOK DocumentedKeysOnly RequiredKeysPresent TypePerKind SnapshotsIff SnapshotKeys ObjectOmittedIff FilterResultIff FilterResultIsJqOfObject SnapshotsAreCurrent EventObjectIsEventTime NoCrash Emit
+INVARIANTS TypeOK DocumentedKeysOnly RequiredKeysPresent TypePerKind SnapshotsIff SnapshotKeys ObjectOmittedIff FilterResultIff FilterResultIsJqOfObject SnapshotsAreCurrent SnapshotsBeforeEnable EventObjectIsEventTime NoCrash Emit
 CHECK_DEADLOCK FALSE
